@@ -96,6 +96,9 @@ func (c *Ctx) Violate(key, what string, replay any) {
 	c.mu.Lock()
 	defer c.mu.Unlock()
 	c.vcount[key]++
+	if os.Getenv("VERIF_DUMP_ALL") != "" {
+		fmt.Printf("DUMP %s :: %s\n", key, oneLine(what))
+	}
 	if _, ok := c.violations[key]; !ok {
 		c.violations[key] = Violation{Property: c.ID, Key: key, What: what, Replay: replay}
 	}
@@ -189,7 +192,11 @@ func (c *Ctx) Finish() int {
 		v := c.violations[k]
 		if f, ok := known[k]; ok {
 			knownSeen++
-			fmt.Printf("KNOWN-FINDING: property=%s key=%s %s (seen %d×)\n", c.ID, k, oneLine(f.What), c.vcount[k])
+			obs := oneLine(v.What)
+			if len(obs) > 300 {
+				obs = obs[:300] + "..."
+			}
+			fmt.Printf("KNOWN-FINDING: property=%s key=%s %s (seen %d×; first observed now: %s)\n", c.ID, k, oneLine(f.What), c.vcount[k], obs)
 			continue
 		}
 		newViol++
